@@ -329,3 +329,299 @@ pub fn world_fops(rng: &mut Rng, w: &World) -> Vec<FOp> {
     }
     ops
 }
+
+// ---------------------------------------------------------------------------------------------
+// parent-ready tracker (direct) and pool-level driving
+
+use alpenglow::consensus::pool_verif::VerifParentReadyTracker;
+use alpenglow::consensus::{
+    Cert, EpochInfo, FastFinalCert, FinalCert, FinalVote, NotarCert, NotarFallbackCert, NotarFallbackVote, NotarVote, Pool, PoolEvent,
+    PoolImpl, SkipCert, SkipVote, ValidatedCert, ValidatorEpochInfo,
+};
+use alpenglow::crypto::aggsig::SecretKey;
+use alpenglow::ValidatorIndex;
+use std::collections::HashMap;
+use std::sync::Arc;
+use tokio::sync::{mpsc, oneshot};
+
+pub type Ann = (u64, B);
+
+pub fn fmt_ann(l: &[Ann]) -> String {
+    fmt_list(l.iter().map(|(s, b)| format!("{s}={}", fmt_blk(*b))).collect())
+}
+
+#[allow(clippy::type_complexity)]
+pub fn fmt_pr_states(root: Slot, states: &[(Slot, bool, Vec<BlockHash>, Vec<BlockId>, bool)]) -> String {
+    let sts: Vec<String> = states
+        .iter()
+        .map(|(s, skip, nfs, ready, waiter)| {
+            format!(
+                "{}:{}:{}:{}:{}",
+                s.inner(),
+                *skip as u8,
+                nfs.iter().map(|h| hid(h).to_string()).collect::<Vec<_>>().join("/"),
+                ready.iter().map(|b| format!("{}.{}", b.0.inner(), hid(&b.1))).collect::<Vec<_>>().join("/"),
+                *waiter as u8
+            )
+        })
+        .collect();
+    format!("root={} pr={}", root.inner(), fmt_list(sts))
+}
+
+/// polls all outstanding waiters; returns the wake-ups `(slot, block)` in slot order
+pub fn poll_waiters(waiters: &mut BTreeMap<u64, oneshot::Receiver<BlockId>>) -> Vec<Ann> {
+    let mut out = Vec::new();
+    let slots: Vec<u64> = waiters.keys().copied().collect();
+    for s in slots {
+        let rx = waiters.get_mut(&s).unwrap();
+        match rx.try_recv() {
+            Ok(b) => {
+                out.push((s, unbid(&b)));
+                waiters.remove(&s);
+            }
+            Err(oneshot::error::TryRecvError::Empty) => {}
+            Err(oneshot::error::TryRecvError::Closed) => {
+                waiters.remove(&s);
+            }
+        }
+    }
+    out
+}
+
+#[derive(Clone, Copy, Debug, PartialEq, Eq, PartialOrd, Ord, Hash)]
+pub enum CK {
+    N,
+    NF,
+    S,
+    FF,
+    F,
+}
+
+impl CK {
+    pub fn tag(&self) -> &'static str {
+        match self {
+            CK::N => "N",
+            CK::NF => "NF",
+            CK::S => "S",
+            CK::FF => "FF",
+            CK::F => "F",
+        }
+    }
+}
+
+/// pool-level inputs
+#[derive(Clone, Copy, Debug, PartialEq, Eq, PartialOrd, Ord, Hash)]
+pub enum POp {
+    Cert(CK, u64, u64),
+    Block(B, B),
+    Query(u64),
+    Wait(u64),
+}
+
+impl POp {
+    pub fn line(&self) -> String {
+        match self {
+            POp::Cert(k, s, h) => format!("cc {} {s} {h}", k.tag()),
+            POp::Block(b, p) => format!("cb {} {} {} {}", b.0, b.1, p.0, p.1),
+            POp::Query(s) => format!("cq {s}"),
+            POp::Wait(s) => format!("cw {s}"),
+        }
+    }
+}
+
+/// One validator holding all the stake signs every certificate (thresholds are not what C07/C08 are
+/// about); certificates are cached across cases.
+pub struct CertFactory {
+    sk: SecretKey,
+    pub epoch: Arc<ValidatorEpochInfo>,
+    cache: HashMap<(CK, u64, u64), ValidatedCert>,
+}
+
+impl CertFactory {
+    pub fn new() -> Self {
+        let (sks, epoch_info): (Vec<SecretKey>, EpochInfo) = alpenglow::test_utils::generate_validators(1);
+        let epoch = Arc::new(ValidatorEpochInfo::new(ValidatorIndex::new(0), epoch_info));
+        Self { sk: sks.into_iter().next().unwrap(), epoch, cache: HashMap::new() }
+    }
+    pub fn cert(&mut self, k: CK, s: u64, h: u64) -> ValidatedCert {
+        if let Some(c) = self.cache.get(&(k, s, h)) {
+            return c.clone();
+        }
+        let v0 = ValidatorIndex::new(0);
+        let slot = Slot::new(s);
+        let vals = self.epoch.epoch_info().validators();
+        let cert = match k {
+            CK::N => Cert::Notar(NotarCert::try_new(&[NotarVote::new(slot, hash(h), &self.sk, v0)], vals).unwrap()),
+            CK::FF => Cert::FastFinal(FastFinalCert::try_new(&[NotarVote::new(slot, hash(h), &self.sk, v0)], vals).unwrap()),
+            CK::NF => Cert::NotarFallback(NotarFallbackCert::try_new(&[], &[NotarFallbackVote::new(slot, hash(h), &self.sk, v0)], vals).unwrap()),
+            CK::S => Cert::Skip(SkipCert::try_new(&[SkipVote::new(slot, &self.sk, v0)], &[], vals).unwrap()),
+            CK::F => Cert::Final(FinalCert::try_new(&[FinalVote::new(slot, &self.sk, v0)], vals).unwrap()),
+        };
+        let vc = ValidatedCert::try_new(cert, self.epoch.epoch_info()).expect("certificate signed by all the stake validates");
+        self.cache.insert((k, s, h), vc.clone());
+        vc
+    }
+}
+
+pub struct PoolCase {
+    pub pool: PoolImpl,
+    votor_rx: mpsc::Receiver<PoolEvent>,
+    repair_rx: mpsc::Receiver<BlockId>,
+    pub waiters: BTreeMap<u64, oneshot::Receiver<BlockId>>,
+    pub dead: bool,
+    pub log_seen: usize,
+}
+
+#[derive(Clone, Debug, Default)]
+pub struct PoolStepOut {
+    pub verdict: String,
+    pub announced: Vec<Ann>,
+    pub wakes: Vec<Ann>,
+    /// finalization events appended to the hook log by this op
+    pub fin_events: Vec<Ev>,
+    pub line: String,
+}
+
+impl PoolCase {
+    pub fn new(f: &CertFactory) -> Self {
+        let (votor_tx, votor_rx) = mpsc::channel(1 << 14);
+        let (repair_tx, repair_rx) = mpsc::channel(1 << 14);
+        Self { pool: PoolImpl::new(f.epoch.clone(), votor_tx, repair_tx), votor_rx, repair_rx, waiters: BTreeMap::new(), dead: false, log_seen: 0 }
+    }
+
+    pub fn dump(&self) -> String {
+        let ret: Vec<String> = self.pool.verif_retained_slots().iter().map(|s| s.inner().to_string()).collect();
+        let (root, states) = self.pool.verif_parent_ready_states();
+        let mut s2n: Vec<(B, B)> = self.pool.verif_s2n_waiting().iter().map(|(p, c)| (unbid(p), unbid(c))).collect();
+        s2n.sort();
+        format!(
+            "hi={} fu={} ret={} {} s2n={}",
+            self.pool.finalized_slot().inner(),
+            self.pool.verif_first_unpruned_slot().inner(),
+            fmt_list(ret),
+            fmt_pr_states(root, &states),
+            fmt_list(s2n.iter().map(|(p, c)| format!("{}>{}", fmt_blk(*p), fmt_blk(*c))).collect())
+        )
+    }
+
+    fn drain(&mut self) -> Vec<Ann> {
+        let mut ann = Vec::new();
+        while let Ok(ev) = self.votor_rx.try_recv() {
+            if let PoolEvent::ParentReady { slot, parent } = ev {
+                ann.push((slot.inner(), unbid(&parent)));
+            }
+        }
+        while self.repair_rx.try_recv().is_ok() {}
+        ann
+    }
+
+    /// runs one op on the real pool; returns the canonical output line and the observations
+    pub fn apply(&mut self, rt: &tokio::runtime::Runtime, f: &mut CertFactory, op: &POp) -> PoolStepOut {
+        let mut out = PoolStepOut::default();
+        match op {
+            POp::Query(s) => {
+                let q: Vec<String> = self.pool.parents_ready(Slot::new(*s)).iter().map(|b| fmt_blk(unbid(b))).collect();
+                out.verdict = "q".into();
+                out.line = format!("q={}", fmt_list(q));
+                return out;
+            }
+            POp::Wait(s) => {
+                let r = catch(|| self.pool.wait_for_parent_ready(Slot::new(*s)));
+                match r {
+                    Err(_) => {
+                        self.dead = true;
+                        out.verdict = "panic".into();
+                        out.line = "panic".into();
+                    }
+                    Ok(e) if e.is_left() => {
+                        let b = e.left().unwrap();
+                        out.verdict = "ready".into();
+                        out.line = format!("ready {}", fmt_blk(unbid(&b)));
+                    }
+                    Ok(e) => {
+                        let rx = e.right().unwrap();
+                        self.waiters.insert(*s, rx);
+                        out.verdict = "waiting".into();
+                        out.line = "waiting".into();
+                    }
+                }
+                return out;
+            }
+            _ => {}
+        }
+        let res: Result<String, String> = match op {
+            POp::Cert(k, s, h) => {
+                let c = f.cert(*k, *s, *h);
+                catch(|| {
+                    rt.block_on(async {
+                        match self.pool.add_cert(c).await {
+                            Ok(()) => "ok".to_string(),
+                            Err(alpenglow::consensus::AddCertError::SlotOutOfBounds) => "oob".to_string(),
+                            Err(alpenglow::consensus::AddCertError::Duplicate) => "dup".to_string(),
+                        }
+                    })
+                })
+            }
+            POp::Block(b, p) => catch(|| {
+                rt.block_on(async {
+                    self.pool.add_block(bid(*b), bid(*p)).await;
+                    "ok".to_string()
+                })
+            }),
+            _ => unreachable!(),
+        };
+        match res {
+            Err(_) => {
+                self.dead = true;
+                out.verdict = "panic".into();
+                out.line = "panic".into();
+            }
+            Ok(v) => {
+                out.announced = self.drain();
+                out.wakes = poll_waiters(&mut self.waiters);
+                let log = self.pool.verif_finalization_log();
+                out.fin_events = log[self.log_seen..].iter().map(ev_plain).collect();
+                self.log_seen = log.len();
+                out.line = if v == "ok" {
+                    format!("ok A={} W={} {}", fmt_ann(&out.announced), fmt_ann(&out.wakes), self.dump())
+                } else {
+                    format!("{v} {}", self.dump())
+                };
+                out.verdict = v;
+            }
+        }
+        out
+    }
+}
+
+/// certificates and blocks of a world for the pool, with skip certificates for the slots the chain skips
+/// (what makes the chain's blocks notarizable) and a few notar-fallback certificates
+pub fn world_pops(rng: &mut Rng, w: &World) -> Vec<POp> {
+    let mut ops = Vec::new();
+    for op in world_fops(rng, w) {
+        ops.push(match op {
+            FOp::Parent(b, p) => POp::Block(b, p),
+            FOp::FastFinal(b) => POp::Cert(CK::FF, b.0, b.1),
+            FOp::Notar(b) => POp::Cert(CK::N, b.0, b.1),
+            FOp::Final(s) => POp::Cert(CK::F, s, 0),
+        });
+    }
+    let on_chain: BTreeSet<u64> = w.chain.iter().map(|b| b.0).collect();
+    let p_skip = rng.range(3, 10);
+    for s in 1..=w.top + 5 {
+        if !on_chain.contains(&s) && rng.chance(p_skip, 10) {
+            ops.push(POp::Cert(CK::S, s, 0));
+        }
+    }
+    for b in &w.chain[1..] {
+        if rng.chance(1, 3) {
+            ops.push(POp::Cert(CK::NF, b.0, b.1));
+        }
+    }
+    for (b, _) in &w.side {
+        if rng.chance(1, 2) {
+            ops.push(POp::Cert(CK::NF, b.0, b.1));
+        }
+    }
+    ops
+}
